@@ -719,8 +719,10 @@ class ParserField:
                     # if no getter function
                     # dependant will not affect
                     field.add_dependant(self.name)
-                if dep not in dependencies:
-                    dependencies.append(dep)
+                if field.name not in dependencies:
+                    # by output name, as the parsed result is keyed
+                    # (the key in fields is lower-cased for a case-insensitive field)
+                    dependencies.append(field.name)
                 if field.attname not in attr_dependencies:
                     attr_dependencies.append(field.attname)
             self.dependencies = set(dependencies)
